@@ -166,3 +166,83 @@ func expandOnly(names ...string) func(*ssa.Function, ssa.CallInstruction) bool {
 }
 
 func fmtInt(i int64) string { return fmt.Sprintf("%d", i) }
+
+// traceRuleSplit is traceRule with one obligation per context: pred classifies each path into a
+// context (sub-construct) and returns a reason when the path violates the rule.  Known findings
+// can then name the exact context that fails.
+func (c *Ctx) traceRuleSplit(rule, construct string, fn *ssa.Function, spec *Spec, okDetail string, pred func(t *Trace) (string, string)) bool {
+	if fn == nil {
+		c.Missing(rule, construct)
+		return false
+	}
+	spec.P = c.P
+	ts := spec.Walk(fn)
+	c.Count("paths_enumerated", len(ts))
+	pos := c.P.Pos(fn.Pos())
+	if spec.Overflow() {
+		c.Undecided(rule, construct, pos, "path enumeration exceeded its bound")
+		return false
+	}
+	if len(ts) == 0 {
+		c.Undecided(rule, construct, pos, "no complete path found through the function")
+		return false
+	}
+	type agg struct {
+		n   int
+		bad []string
+	}
+	ctxs := map[string]*agg{}
+	var order []string
+	for _, t := range ts {
+		cx, reason := pred(t)
+		if cx == "" {
+			continue
+		}
+		a := ctxs[cx]
+		if a == nil {
+			a = &agg{}
+			ctxs[cx] = a
+			order = append(order, cx)
+		}
+		a.n++
+		if reason != "" {
+			w := reason + "  on path: " + t.String()
+			dup := false
+			for _, b := range a.bad {
+				if b == w {
+					dup = true
+				}
+			}
+			if !dup {
+				a.bad = append(a.bad, w)
+			}
+		}
+	}
+	sortStrings(order)
+	all := true
+	for _, cx := range order {
+		a := ctxs[cx]
+		if len(a.bad) == 0 {
+			c.Pass(rule, construct+"/"+cx, pos, fmt.Sprintf("%s (%d paths in this context)", okDetail, a.n))
+			continue
+		}
+		all = false
+		if len(a.bad) > 6 {
+			a.bad = append(a.bad[:6], fmt.Sprintf("… %d more", len(a.bad)-6))
+		}
+		st := Violated
+		if strings.HasPrefix(a.bad[0], "undecided:") {
+			st = Undecided
+		}
+		c.add(rule, construct+"/"+cx, pos, st, firstLine(a.bad[0]), a.bad...)
+	}
+	return all
+}
+
+func sortStrings(s []string) {
+	for i := 1; i < len(s); i++ {
+		for j := i; j > 0 && s[j] < s[j-1]; j-- {
+			s[j], s[j-1] = s[j-1], s[j]
+		}
+	}
+}
